@@ -277,8 +277,11 @@ void StringDictionaryFMINDEX::build_ssa(uchar *text, size_t len,
   if (BWTsampling > 0) {
     uint samples = (len + 1) / BWTsampling + 1;
 
-    for (uint i = 0; i < samples; i++)
-      fm_index->suff_sample[i] = separators->rank1(fm_index->suff_sample[i]);
+    for (uint i = 0; i < samples; i++) {
+      // The suffix starting at the end of the text has no bit in separators
+      size_t pos = fm_index->suff_sample[i];
+      fm_index->suff_sample[i] = separators->rank1(pos < len ? pos : len - 1);
+    }
   }
 }
 
